@@ -90,6 +90,8 @@ def split(name, entry, functions, **kw):
         k['bound'] = 'arena block list of length exactly %d on entry (all block sizes, fill levels <= 2^40, current block, alignment symbolic)' % n
         if n == 3:
             k.setdefault('tier', 'thorough')
+            if name == 'alloc_aligned_nofail':
+                k.update(mem_gb=14, timeout=1200)   # SAT ran out of memory at the default 8 GB
         out.append(arena('%s_n%d' % (name, n), entry, functions, **k))
     return out
 
